@@ -19,7 +19,7 @@ META = {
     "technique": "TLA+ spec (ObjHistory) model-checked with TLC; TLC-generated operation interleavings replayed with fingerprints of all live objects after every action",
 }
 
-import random, warnings
+import json, random, warnings
 import numpy as np
 
 GRAPHS = {2: [[[2], []], [[], [1]], [[2], [1]]],
@@ -187,8 +187,18 @@ class Pool:
         return fp
 
     def check_all(self, ctx, action, case):
+        from cuqiverif.core import MachineryError
         for i, e in enumerate(self.objs):
-            now = self.fingerprint(e)
+            try:
+                now = self.fingerprint(e)
+            except MachineryError:
+                raise
+            except Exception as ex:
+                # the very probes that succeeded when the object was created now raise: its behaviour has changed
+                ctx.mismatch("frame/%s/%s/probe_raises" % (action, e["kind"]), dict(case, altered_object=i),
+                             "after %s the %s object #%d can no longer be probed as when it was created: %s: %s" % (
+                                 action, e["kind"], i + 1, type(ex).__name__, str(ex)[:120]))
+                return False
             for k, v0 in e["fp"].items():
                 v1 = now.get(k)
                 same = v0 == v1
@@ -201,6 +211,52 @@ class Pool:
                                  v0, v1)
                     return False
         return True
+
+
+CREATING = ("condition", "to_likelihood", "cond_factor", "copy_enable_fd", "apply_model")
+
+
+def _features(c):
+    """what a behaviour exercises (used to guarantee a floor of behaviours per feature in the plan)"""
+    nobj = 1 + c["n"] + c.get("k", 0)
+    made_by = {}                 # object number -> action that created it
+    fixed_by = {}                # object number -> variables fixed by the Condition that created it
+    f = set()
+    mutated = False
+    for act, o, arg in c["hist"]:
+        f.add("act:" + act)
+        src = made_by.get(o)
+        if act == "condition" and src == "condition":
+            f.add("staged_condition")
+            if c["n"] == 4:
+                f.add("staged_condition_n4")
+                # both stages fix some, together not all, of the variables 2, 3, 4 (the parents of variable 1 in the
+                # N = 4 graphs whose first factor has three parents): a callable is conditioned PARTIALLY twice
+                P, S1, S2 = {2, 3, 4}, set(fixed_by.get(o, ())), set(arg)
+                if S1 & P and S2 & P and len((S1 | S2) & P) <= 2:
+                    f.add("two_stage_partial_n4")
+        if act == "gibbs" and src == "condition":
+            f.add("gibbs_on_cond")
+        if act == "run_sampler" and src == "condition":
+            f.add("sampler_on_cond")
+        if act in CREATING and src == "condition":
+            f.add("derive_from_cond")
+        if mutated and act != "mutate_copy":
+            f.add("observe_after_mutate")
+        if act == "mutate_copy":
+            mutated = True
+        if act in CREATING:
+            nobj += 1
+            made_by[nobj] = act
+            if act == "condition":
+                fixed_by[nobj] = list(fixed_by.get(o, ())) + list(arg)
+    return f
+
+
+def _skip(ctx, act, why):
+    """a behaviour that cannot be continued on the real objects (the spec object does not exist): counted, never silent"""
+    k = "skipped/%s/%s" % (act, why)
+    ctx.facets[k] = ctx.facets.get(k, 0) + 1
 
 
 def replay_case(ctx, case, par, r, sweeps, seed):
@@ -224,12 +280,13 @@ def replay_case(ctx, case, par, r, sweeps, seed):
             pool.add(mk(), "composite")
         cnames.append(nm)
     vals0 = R.completion(3)
-    base = dict(kind="objhist", n=N, par=par, r=r, hist=case["hist"], composites=cnames)
+    base = dict(kind="objhist", n=N, k=case.get("k", 0), par=par, r=r, hist=case["hist"], composites=cnames, seed=seed, sweeps=sweeps)
     specidx = list(range(len(pool.objs)))       # spec object number (1-based) -> index in pool.objs
     for pos, (act, o, arg) in enumerate(case["hist"]):
         e = pool.objs[specidx[o - 1]]
         c = dict(base, pos=pos)
         new = None
+        effective = True            # False: the action had nothing to act on here (counted apart, see the vacuity guard)
         np.random.seed(seed + pos)
         try:
             with quiet():
@@ -242,13 +299,16 @@ def replay_case(ctx, case, par, r, sweeps, seed):
                 elif act == "cond_factor":
                     cv = list(e["obj"].get_conditioning_variables())
                     if not cv:
+                        _skip(ctx, act, "not_conditional")
                         return
                     new = (e["obj"](**{cv[0]: _cond_value(e["obj"], "cond")}), "composite", {}, None, {})
                 elif act == "mutate_copy":
                     tgt = e["obj"]
                     if e["kind"] not in ("factor", "composite") or not hasattr(tgt, "get_mutable_variables"):
+                        _skip(ctx, act, "no_mutable_variables")
                         return
                     if _mutate(tgt) is None:
+                        _skip(ctx, act, "no_numeric_parameter")
                         return
                     e["fp"] = pool.fingerprint(e)        # this object was changed deliberately; all others must be unchanged
                 elif act == "to_likelihood":
@@ -287,11 +347,13 @@ def replay_case(ctx, case, par, r, sweeps, seed):
                     pool.fingerprint(e)
                 elif act == "gradient":
                     free = pool.free(e) if e["kind"] in ("joint", "cond") else [e["v"]]
-                    if hasattr(e["obj"], "gradient") and len(free) == 1:
+                    if hasattr(e["obj"], "gradient") and len(free) == 1 and free[0] is not None:
                         try:
                             e["obj"].gradient(vals0[free[0]])
                         except Exception:
-                            pass
+                            pass          # whether a gradient exists is C03's matter; here: attempting it changes nothing
+                    else:
+                        effective = False
                 elif act == "sample":
                     try:
                         e["obj"].sample(3)
@@ -301,7 +363,26 @@ def replay_case(ctx, case, par, r, sweeps, seed):
                     tgt = e["obj"]
                     if isinstance(tgt, cuqi.distribution.Distribution):
                         free = pool.free(e)
-                        cuqi.experimental.mcmc.MH(tgt, scale=0.1, initial_point=R.completion(1)[free[0]]).warmup(3).sample(5)
+                        M = cuqi.experimental.mcmc
+                        x0 = R.completion(1)[free[0]]
+                        # the property does not single out a sampler: every kernel of the stateful interface is run on the
+                        # object (a gradient-based one that its target cannot serve is refused -> counted, nothing else)
+                        kinds = [("MH", lambda: M.MH(tgt, scale=0.1, initial_point=x0)),
+                                 ("MALA", lambda: M.MALA(tgt, scale=0.01, initial_point=x0)),
+                                 ("CWMH", lambda: M.CWMH(tgt, scale=0.1, initial_point=x0)),
+                                 ("ULA", lambda: M.ULA(tgt, scale=0.01, initial_point=x0)),
+                                 ("NUTS", lambda: M.NUTS(tgt, max_depth=2, initial_point=x0))]
+                        ran = 0
+                        for nm, mk in kinds:
+                            try:
+                                mk().warmup(3).sample(4)
+                                ran += 1
+                                ctx.facets["sampler/" + nm] = ctx.facets.get("sampler/" + nm, 0) + 1
+                            except Exception:
+                                ctx.facets["sampler_refused/" + nm] = ctx.facets.get("sampler_refused/" + nm, 0) + 1
+                        effective = ran > 0
+                    else:
+                        effective = False     # the conditioned copy did not reduce to a single density: no sampler applies
                 elif act == "gibbs":
                     free = pool.free(e)
                     strat = {jg.name(v): cuqi.experimental.mcmc.MH(scale=0.1, initial_point=R.completion(1)[v]) for v in free}
@@ -310,6 +391,7 @@ def replay_case(ctx, case, par, r, sweeps, seed):
             ctx.observations.setdefault("actions_refused", {}).setdefault(act, 0)
             ctx.observations["actions_refused"][act] += 1
             new = None
+            effective = False
             if act in ("condition", "to_likelihood", "copy_enable_fd", "apply_model", "cond_factor", "mutate_copy"):
                 return       # the behaviour cannot be continued (the spec object does not exist); C01 judges refusals
         if new is not None:
@@ -320,7 +402,7 @@ def replay_case(ctx, case, par, r, sweeps, seed):
             pool.objs.append(ent)
             specidx.append(len(pool.objs) - 1)
             # a conditioned / derived copy keeps the random-variable name of its original
-            if kind in ("lik",) or (act == "copy_enable_fd" and kind == "factor"):
+            if kind in ("lik",) or (act == "copy_enable_fd" and kind == "factor") or act == "cond_factor":
                 try:
                     if obj.name != e["obj"].name:
                         ctx.mismatch("name/%s" % act, c, "derived object does not keep the name of its original", e["obj"].name, obj.name)
@@ -328,7 +410,8 @@ def replay_case(ctx, case, par, r, sweeps, seed):
                 except Exception as ex:
                     ctx.mismatch("name/%s/raises" % act, c, "name of the derived object cannot be determined: %s" % str(ex)[:100])
                     return
-        ctx.facets["action/" + act] = ctx.facets.get("action/" + act, 0) + 1
+        fk = ("action/" if effective else "noop/") + act
+        ctx.facets[fk] = ctx.facets.get(fk, 0) + 1
         if not pool.check_all(ctx, act, c):
             return
     ctx.traces += 1
@@ -338,44 +421,62 @@ def run(ctx):
     from cuqiverif.core import MachineryError
     warnings.filterwarnings("ignore")
     rnd = random.Random(ctx.seed)
-    res = ctx.tlc("ObjHistory", cfg="ObjHistory.quick.cfg", workers=16)
+    ACTIONS = ["DoCondition", "DoToLikelihood", "DoCondFactor", "DoMutateCopy", "DoCopyEnableFD", "DoApplyModel", "DoObserve"]
+    res = ctx.tlc("ObjHistory", cfg="ObjHistory.quick.cfg", workers=16, require_actions=ACTIONS)
     ctx.model_must_hold(res, "ObjHistory.quick")
-    cases = res.cases
+    cases = sorted(res.cases, key=lambda c: json.dumps(c, sort_keys=True))     # TLC's workers emit in scheduling order
     if ctx.tier == "thorough":
         r2 = ctx.tlc("ObjHistory", cfg="ObjHistory.thorough.cfg", workers=16, timeout=1500)
         ctx.model_must_hold(r2, "ObjHistory.thorough")
+    # N = 4 (no composites), every behaviour of depth 3: the source of staged PARTIAL conditionings of one callable
+    r4 = ctx.tlc("ObjHistory", cfg="ObjHistory.n4.cfg", workers=16, timeout=1500)
+    ctx.model_must_hold(r4, "ObjHistory.n4")
+    cases4 = sorted((c for c in r4.cases if "two_stage_partial_n4" in _features(c)), key=lambda c: json.dumps(c, sort_keys=True))
     for cfg in ("dev_const", "dev_fd", "dev_inner"):
         r = ctx.tlc("ObjHistory", cfg="ObjHistory.%s.cfg" % cfg, workers=4, expect_violation=True)
         if r.ok or r.violated not in ("OriginalsClean", "Frame"):
             raise MachineryError("deviation %s did not violate the frame condition" % cfg)
-    sim = ctx.tlc("ObjHistory", cfg="ObjHistory.sim.cfg", mode="simulate", simulate="num=%d" % (60 if ctx.tier == "quick" else 1500),
+    sim = ctx.tlc("ObjHistory", cfg="ObjHistory.sim.cfg", mode="simulate", simulate="num=%d" % (300 if ctx.tier == "quick" else 1500),
                   depth=8, workers=1, seed=ctx.seed + 1, timeout=1200)
+    ctx.model_must_hold(sim, "ObjHistory.sim")
     simcases = sim.cases
-    sim4 = ctx.tlc("ObjHistory", cfg="ObjHistory.sim4.cfg", mode="simulate", simulate="num=%d" % (40 if ctx.tier == "quick" else 800),
+    sim4 = ctx.tlc("ObjHistory", cfg="ObjHistory.sim4.cfg", mode="simulate", simulate="num=%d" % (200 if ctx.tier == "quick" else 800),
                    depth=7, workers=1, seed=ctx.seed + 2, timeout=1200)
+    ctx.model_must_hold(sim4, "ObjHistory.sim4")
     simcases = simcases + sim4.cases
     nq, ns = (260, 60) if ctx.tier == "quick" else (2500, 1200)
     plan = rnd.sample(cases, min(nq, len(cases))) + rnd.sample(simcases, min(ns, len(simcases)))
-    # stratify: every action of the specification must occur in the replayed behaviours whatever the seed
-    pool = cases + simcases
-    for act in ("condition", "to_likelihood", "copy_enable_fd", "apply_model", "logd", "gradient", "sample", "run_sampler",
-                "gibbs", "cond_factor", "mutate_copy", "bad_call"):
-        have = sum(1 for c in plan if any(h[0] == act for h in c["hist"]))
-        if have < 6:
-            extra = [c for c in pool if any(h[0] == act for h in c["hist"]) and c not in plan]
-            rnd.shuffle(extra)
-            # prefer behaviours in which the action can really be executed (e.g. run_sampler needs an earlier condition)
-            extra.sort(key=lambda c: 0 if (act != "run_sampler" or c["hist"][0][0] == "condition") else 1)
-            plan += extra[:6 - have]
+    # What a seeded subset happens to contain must not decide whether a class of behaviours is exercised: every feature
+    # below occurs in at least `floor` behaviours of the plan (taken from everything TLC emitted).
+    floor = 25 if ctx.tier == "quick" else 150
+    chosen = {json.dumps(c, sort_keys=True) for c in plan}
+    allcases = cases + simcases + cases4
+    feats = {json.dumps(c, sort_keys=True): _features(c) for c in allcases}
+    wanted = ["act:condition", "act:logd", "act:gradient", "act:run_sampler", "act:gibbs", "act:apply_model", "act:mutate_copy", "act:cond_factor", "act:to_likelihood",
+              "act:copy_enable_fd", "act:sample", "act:bad_call", "staged_condition", "staged_condition_n4", "gibbs_on_cond",
+              "sampler_on_cond", "derive_from_cond", "observe_after_mutate", "two_stage_partial_n4"]
+    for ft in wanted:
+        have = sum(1 for c in plan if ft in feats[json.dumps(c, sort_keys=True)])
+        if have < floor:
+            pool_ = [c for c in allcases if ft in feats[json.dumps(c, sort_keys=True)] and json.dumps(c, sort_keys=True) not in chosen]
+            extra = rnd.sample(pool_, min(len(pool_), floor - have))
+            plan += extra
+            chosen |= {json.dumps(c, sort_keys=True) for c in extra}
+        ctx.facets["plan/" + ft] = sum(1 for c in plan if ft in feats[json.dumps(c, sort_keys=True)])
     sweeps = 20 if ctx.tier == "quick" else 300
     for i, c in enumerate(plan):
         graphs = GRAPHS[c["n"]]
         par = graphs[i % len(graphs)]
         r = (i // len(graphs)) % 3
+        if c["n"] == 4 and "staged_condition" in feats[json.dumps(c, sort_keys=True)] and i % 4 != 3:
+            r = 2       # staged partial conditioning needs ONE callable with several arguments (realisation 2) to mean anything
+            if "two_stage_partial_n4" in feats[json.dumps(c, sort_keys=True)]:
+                par = graphs[i % 2]         # the two graphs in which variable 1 has the parents 2, 3, 4
         ctx.case(("objhist", str(par), r, str(c["hist"])))
         replay_case(ctx, c, par, r, sweeps if i % 7 == 0 else 5, 9000 + ctx.seed)
     need = {"action/condition", "action/to_likelihood", "action/copy_enable_fd", "action/apply_model", "action/logd",
-            "action/gradient", "action/sample", "action/run_sampler", "action/gibbs", "action/cond_factor", "action/mutate_copy", "action/bad_call"}
+            "action/gradient", "action/sample", "action/run_sampler", "action/gibbs", "action/cond_factor", "action/mutate_copy", "action/bad_call",
+            "sampler/MH", "sampler/CWMH", "sampler/MALA", "sampler/ULA", "sampler/NUTS"}
     if not need <= set(ctx.facets):
         raise MachineryError("vacuous replay: actions never exercised: %s" % sorted(need - set(ctx.facets)))
     ctx.sample({"behaviour": plan[0]})
@@ -387,4 +488,10 @@ def run(ctx):
 
 
 def replay(ctx, case):
-    replay_case(ctx, case, case["par"], case["r"], 20, 9000)
+    from cuqiverif.core import MachineryError
+    if case.get("kind") == "model":
+        res = ctx.tlc("ObjHistory", cfg="ObjHistory.quick.cfg", workers=16)
+        return ctx.model_must_hold(res, "ObjHistory.quick")
+    if "par" not in case or "hist" not in case:
+        raise MachineryError("replay: not a C11 behaviour: %r" % (sorted(case),))
+    replay_case(ctx, case, case["par"], case["r"], case.get("sweeps", 20), case.get("seed", 9000 + ctx.seed))
